@@ -596,6 +596,17 @@ func (ts *Terms) load(addr ssa.Value, fr *Frame, depth int) *Term {
 		if base, ok := a.X.(*ssa.Alloc); ok {
 			return ts.loadAlloc(base, a, fr, depth)
 		}
+		// field of a captured local: the one field, not the whole record (which may be
+		// under construction from this very field)
+		if fv, ok := a.X.(*ssa.FreeVar); ok && fr != nil && fr.MC != nil {
+			for i, v := range fv.Parent().FreeVars {
+				if v == fv && i < len(fr.MC.Bindings) {
+					if al, ok := fr.MC.Bindings[i].(*ssa.Alloc); ok {
+						return ts.loadAlloc(al, a, fr.Parent, depth)
+					}
+				}
+			}
+		}
 		return zeroIfUnset(ts.field(ts.loadBase(a.X, fr, depth+1), fieldNameShort(a.X.Type(), a.Field)), fieldTypeOf(a.X.Type(), a.Field))
 	case *ssa.FreeVar:
 		// captured variable: the binding is the address in the creator frame
@@ -836,6 +847,50 @@ func (ts *Terms) loadAlloc(a *ssa.Alloc, fld *ssa.FieldAddr, fr *Frame, depth in
 					if nt := ts.nestedLiteral(fa, fr, depth+1); nt != nil {
 						fields[name] = map[string]*Term{nt.String(): nt}
 						order = append(order, name)
+					}
+				}
+			}
+		}
+		// fields assigned through the captured variable in the function literals of this
+		// function (a named result filled in by the steps of a check list)
+		if depth < 30 {
+			for _, r := range *a.Referrers() {
+				mc, ok := r.(*ssa.MakeClosure)
+				if !ok {
+					continue
+				}
+				cf, _ := mc.Fn.(*ssa.Function)
+				if cf == nil || cf.Blocks == nil {
+					continue
+				}
+				for j, bnd := range mc.Bindings {
+					if bnd != ssa.Value(a) || j >= len(cf.FreeVars) || cf.FreeVars[j].Referrers() == nil {
+						continue
+					}
+					creator := fr
+					for f := fr; f != nil; f = f.Parent {
+						if f.Fn == a.Parent() {
+							creator = f
+							break
+						}
+					}
+					cfr := &Frame{Fn: cf, Parent: creator, MC: mc, Depth: frameDepth(creator) + 1}
+					for _, ur := range *cf.FreeVars[j].Referrers() {
+						fa, ok := ur.(*ssa.FieldAddr)
+						if !ok || fa.Referrers() == nil {
+							continue
+						}
+						name := fieldNameShort(fa.X.Type(), fa.Field)
+						for _, r2 := range *fa.Referrers() {
+							if st, ok := r2.(*ssa.Store); ok && st.Addr == ssa.Value(fa) {
+								if fields[name] == nil {
+									fields[name] = map[string]*Term{}
+									order = append(order, name)
+								}
+								t := ts.of(st.Val, cfr, depth+2)
+								fields[name][t.String()] = t
+							}
+						}
 					}
 				}
 			}
